@@ -811,6 +811,11 @@ class HookShim:
         except Exception as ex:
             self.harness_error = "HookShim: %r" % (ex,)
             raise invoker.HarnessError(self.harness_error)
+        if kw.get("shell") and isinstance(cmd, str) and any(ch in cmd for ch in " \t&;|<>()$`\\\"'*?[]#~!{}"):
+            # handed to /bin/sh as a command line: the shell splits and expands it, the program named by the path is not run
+            ev["rc"] = 127
+            ev["shell_split"] = True
+            return _FakeProc(127, b"", b"/bin/sh: 1: not found\n")
         if behaviour == "eacces":
             ev["rc"] = "EACCES"
             raise OSError(errno.EACCES, "Permission denied (injected): %r" % path)
